@@ -32,14 +32,17 @@ def shards(tier, seed):
     budget = 40 if tier == 'quick' else 500
     out = [{'kind': 'random', 'count': per, 'budget_s': budget, 'max_g': 12 if tier == 'quick' else 24} for _ in range(15)]
     out.append({'kind': 'tables', 'budget_s': budget})
-    return out
+    _out = out
+    if tier == 'thorough':
+        _out.append({'kind': 'suite', 'select': ['tests'], 'budget_s': 900})
+    return _out
 
 
 def _ref(circuit):
     if len(circuit.inputs) > 10 or circuit.size > 400:
         raise KeyError('too large for the exhaustive oracle')
     net = refsem.net_of(circuit)
-    key = (tuple(net.inputs), tuple(sorted(net.gates.items())))
+    key = (tuple(net.inputs), tuple(net.outputs), tuple(sorted(net.gates.items())))
     r = _cache.get(key)
     if r is None:
         if len(_cache) > 16:
@@ -299,6 +302,11 @@ def run_tables(ctx):
 
 def run_shard(spec, ctx):
     install(ctx)
+    if spec.get('kind') == 'suite':
+        from vt import suite
+        import sys
+        suite.run(sys.modules[__name__], ctx, select=spec.get('select'))
+        return
     if spec['kind'] == 'tables':
         run_tables(ctx)
         return
